@@ -143,7 +143,7 @@ def pay_ending(r, kind):
     elif kind in ("pending_then_done", "pending_then_fail", "error_then_done", "error_then_fail", "warn_then_done", "warn_then_fail"):
         out = {"pending": "pending", "error": "error", "warn": "failed_warn"}[kind.split("_")[0]]
         fin = {"e": "payfin_next", "out": out}
-        if out == "error": fin["err"] = r.choice(["transport", "-1", "210", "nocode"])
+        if out == "error": fin["err"] = r.choice(["transport", "-1", "nocode"] + [str(c) for c in range(200, 211)])   # every code pay documents
         last = {"e": "part_next", "st": "done"} if kind.endswith("done") else {"e": "part_next", "st": "fail", "code": r.choice(codes)}
         ev += [{"e": "newpart_next"}, fin]
         # the part resolves at a random point of the wait_payment that follows
@@ -242,11 +242,19 @@ def straggler_crash_case(r):
     script = script[:-1] + [{"e": "drain_step"}] * r.below(4) + [{"e": "hold_unprocessed"}]
     probe = dict(c["_probe"]); probe.pop("probe", None)
     script += [probe, {"e": "drain"}, {"e": "proc_next"}, {"e": "newpart_next"}]
-    if r.chance(1, 2): script += [{"e": "payfin_next", "out": r.choice(["pending", "error"]), "err": "210"}, {"e": "drain_step"}, {"e": "drain_step"}]
-    script += [{"e": "release"}, {"e": "drain"}, {"e": "crash"}, {"e": "tick", "ms": 1000}, {"e": "replay_unanswered"}, {"e": "drain"}]
+    if r.chance(1, 2): script += [{"e": "payfin_next", "out": r.choice(["pending", "error"]), "err": str(200 + r.below(11))}, {"e": "drain_step"}, {"e": "drain_step"}]
+    script += [{"e": "release"}, {"e": "drain"}, {"e": "crash"}, {"e": "tick", "ms": 1000}]
+    hostile = r.chance(1, 2)
+    if hostile:
+        # only part of the set comes back and the MPP timer expires (or the chain moves on) while the second attempt's part is still pending
+        if r.chance(1, 2):
+            script += [{"e": "replay_unanswered", "one": 1, "rel": r.choice([0, 5, 100, 1000])}, {"e": "drain"}]
+        else:
+            script += [{"e": "replay_unanswered", "one": 1}, {"e": "drain"}, {"e": "tick", "ms": 61000}, {"e": "drain"}]
+    script += [{"e": "replay_unanswered"}, {"e": "drain"}]
     c["_script"] = script
     c["suffix"] = [{"e": "finale", "old_parts": r.choice(["done", "fail"]), "mode": "coop"}]
-    c["family"] = c["family"].replace("story/", "straggler_crash/")
+    c["family"] = c["family"].replace("story/", "straggler_crash_hostile/" if hostile else "straggler_crash/")
     return c
 
 def crash_variants(r, base, length, stride=1, probe=False, old_parts=None):
